@@ -151,12 +151,24 @@ def source_scan(files):
     return bad
 
 
+def pin_theorems(prop):
+    """Names of the source-pin obligations of a property (VAudit/Pin<prop>.lean), [] if it has none."""
+    path = os.path.join(LEAN, "VAudit", "Pin" + prop + ".lean")
+    if not os.path.exists(path):
+        return []
+    return re.findall(r"#print axioms (\S+)", open(path).read())
+
+
 def audit(prop):
     """Run `#print axioms` for every property theorem.  Returns (theorems: {name: [axioms]}, log, ok)."""
     path = os.path.join("VAudit", prop + ".lean")
     if not os.path.exists(os.path.join(LEAN, path)):
         return {}, "no audit file", False
     rc, log = sh(["lake", "env", "lean", path], cwd=LEAN)
+    pin = os.path.join("VAudit", "Pin" + prop + ".lean")
+    if os.path.exists(os.path.join(LEAN, pin)):
+        rc2, log2 = sh(["lake", "env", "lean", pin], cwd=LEAN)
+        rc, log = (rc or rc2), log + "\n" + log2
     thms = {}
     for m in re.finditer(r"'([^']+)' depends on axioms: \[([^\]]*)\]", log):
         thms[m.group(1)] = [a.strip() for a in m.group(2).replace("\n", " ").split(",") if a.strip()]
